@@ -46,6 +46,9 @@ structure AArg where
   isList : Bool
   optional : Bool
   hasDefault : Bool
+  /-- a `Scalar` argument of an operator that only takes integers (bitwise / shift operators; set by the
+  translator, checked against `intOnlyName` in `Entry.defects`) -/
+  intScalar : Bool
   deriving Repr
 
 structure AtenSchema where
@@ -111,6 +114,21 @@ inductive Res
   | resolved | builtin | lib_absent | undefined
   deriving DecidableEq, Repr
 
+/-- Operators whose `Scalar` arguments are integers by their meaning: `aten::bitwise_*`, `aten::__lshift__*`,
+`aten::__rshift__*`. -/
+def intOnlyPrefixes : List (List Nat) :=
+  [[97, 116, 101, 110, 58, 58, 98, 105, 116, 119, 105, 115, 101, 95],
+   [97, 116, 101, 110, 58, 58, 95, 95, 108, 115, 104, 105, 102, 116, 95, 95],
+   [97, 116, 101, 110, 58, 58, 95, 95, 114, 115, 104, 105, 102, 116, 95, 95]]
+
+def intOnlyName (qcodes : List Nat) : Bool := intOnlyPrefixes.any (fun p => p.isPrefixOf qcodes)
+
+/-- `_complex` -/
+def complexSuffix : List Nat := [95, 99, 111, 109, 112, 108, 101, 120]
+
+/-- `complex` -/
+def complexWord : List Nat := [99, 111, 109, 112, 108, 101, 120]
+
 structure Entry where
   /-- the qualified name as its code points (the kernel evaluates `String.toList` and `Char` tests on
   literals slowly, `Nat` arithmetic and `String.ofList` quickly) -/
@@ -120,6 +138,8 @@ structure Entry where
   res : Res
   aten : AtenSchema
   sig : OsSig
+  /-- code points of the python function's `__name__` -/
+  fcodes : List Nat
   deriving Repr
 
 /-! ## `op_signature_from_function`: annotation → input or attribute -/
@@ -262,10 +282,12 @@ def inputAccepts (m : Mode) (arg : AArg) : Bool :=
 
 /-- What an attribute parameter of ONNX type `t` takes, after the exporter's conversion of
 dtype → int and device/layout/memory_format → str (`_core.py:_convert_fx_arg_to_onnx_arg`) and
-int → float (`_building.py:136-139`). -/
+int → float (`_building.py:136-139`).  A `Scalar` may be a float, so an INT attribute accepts it only for the
+integer-only operators (`intScalar`); `aten::histc(…, Scalar min, Scalar max)` on `int` parameters is not. -/
 def attrAccepts (t : AttrT) (arg : AArg) : Bool :=
   match t with
-  | .int => !arg.isList && [ABase.int, .symint, .bool, .dtype, .scalar].contains arg.base
+  | .int => !arg.isList &&
+      ([ABase.int, .symint, .bool, .dtype].contains arg.base || (arg.base == .scalar && arg.intScalar))
   | .float => !arg.isList && [ABase.float, .scalar, .int, .symint].contains arg.base
   | .string => !arg.isList && [ABase.str, .device, .layout, .memfmt].contains arg.base
   | .ints => arg.isList && [ABase.int, .symint, .bool].contains arg.base
@@ -518,13 +540,29 @@ def nodupN : List Nat → Bool
 inductive Defect
   | undefinedOp
   | badName
+  /-- a function written for complex inputs (`…_complex`, and the operator itself is not called `…complex`)
+  is registered for the real kind: it owns the (name, real) pair its real twin should own -/
+  | complexName
+  /-- the translator marked a `Scalar` as integer-only outside the integer-only operators -/
+  | schemaFlag
   /-- `op_signature_from_function` classified a parameter differently from its transcription -/
   | sigClass
   | clause (c : Clause)
   deriving DecidableEq, Repr
 
+/-- operator name proper: between `::` and the first `.` -/
+def opBaseName (qcodes : List Nat) : List Nat := (resolveKey qcodes).name
+
+def Entry.complexNameOk (e : Entry) : Bool :=
+  !(complexSuffix.isSuffixOf e.fcodes) || complexWord.isSuffixOf (opBaseName e.qcodes) || e.isComplex
+
+def Entry.schemaFlagsOk (e : Entry) : Bool :=
+  (e.aten.positional ++ e.aten.kwonly).all (fun x => !x.intScalar || (x.base == .scalar && intOnlyName e.qcodes))
+
 def Entry.defects (e : Entry) : List Defect :=
   (if nameOkCodes e.qcodes then [] else [.badName]) ++
+  (if e.complexNameOk then [] else [.complexName]) ++
+  (if e.schemaFlagsOk then [] else [.schemaFlag]) ++
   (if sigFaithful e.sig then [] else [.sigClass]) ++
   (match e.res with
    | .undefined => [.undefinedOp]
